@@ -129,7 +129,7 @@ def run(ck):
     cad = facts.fn(CRC + "clientAccessCheckDone")
     build = ev_assign(ERR, E.m_calls("clientBuildError"))
     ck.require_response("A2.deny-builds-error", cad, E.m_calls("Acl::Answer::allowed"), False, build, "error = clientBuildError(..)",
-                        until=ev_call(CHR + "doCallouts"), term_kinds=("IfStmt",), why="(a denied request would continue without an error)")
+                        until=ev_call(CHR + "doCallouts"), why="(a denied request would continue without an error)")
     allowed_status = {sc["scForbidden"], sc["scProxyAuthenticationRequired"], sc["scUnauthorized"]}
     for s in ck.sites(ck.flow(cad), build, "error = clientBuildError", 1):
         st = E.strip(E.strip(s.ev["rhs"])["a"][1])
